@@ -7,7 +7,7 @@
 From Coq Require Import ZArith.
 From TW Require Import Wrap Refill Columns.
 From TW Require Import Custom WrapSmawk.
-From TW Require Import Partition Bellman SplitBreak InplaceFacts UnfillFacts ColumnsFacts Pipeline SmawkShape.
+From TW Require Import Partition Bellman SplitBreak InplaceFacts UnfillFacts ColumnsFacts Pipeline SmawkShape CostBound.
 
 Theorem C04_fill_inplace : forall (cw : char -> N) text w, exists t', fill_inplace cw text w = Some t'.
 Proof. exact fill_inplace_some. Qed.
@@ -66,6 +66,20 @@ Proof.
   intros. split; [apply wrap_total|apply fill_total]; try exact ofit_smawk_ok; exact custom3_splitter_ok.
 Qed.
 
+(* "optimal-fit never reports an overflow error when all widths and penalties are
+   usize-valued": over exact integers every cost the algorithm stores is a non-negative
+   integer below 2^300 — for the reference search and for the model of smawk.  (That the
+   floating-point evaluation of the same expression then cannot reach +infinity, whose
+   threshold is about 2^1024, is argued from the monotonicity of rounding; it is not proved
+   here and is exercised by the `ofu` cases of the harness.) *)
+Theorem C04_costs_far_below_f64_max : forall eqT P (fs : list (frag NumZ)) (lws : list Z),
+  pen_ok (2^64) P -> Forall (frag_ok (2^64)) fs -> Forall (fun lw => (0 <= lw <= 2^64)%Z) lws ->
+  (Z.of_nat (length fs) <= 2^64)%Z ->
+  forall minima, smawk_minima NumZ eqT P fs lws = Some minima ->
+  forall j i c, nth_error minima j = Some (i, c) -> (0 <= c < 2^300)%Z.
+Proof. intros eqT P fs lws H1 H2 H3 H4 minima. exact (smawk_minima_usize P fs lws H1 H2 H3 H4 eqT minima). Qed.
+
+Print Assumptions C04_costs_far_below_f64_max.
 Print Assumptions C04_smawk_total.
 Print Assumptions C04_wrap_fill_smawk.
 Print Assumptions C04_wrap_fill.
